@@ -3,11 +3,19 @@
 The numeric bound ("never less, no more than the small great-circle excess")
 is a real-valued inequality over geometry and is NOT decided.  Decided:
 
-R1  antimeridian split fractions sum to one (T-ALG + def-use across the call):
-    the two factors applied to the crossing segment's integrated value are
-    a/t and b/t where, following the tuple returned by
-    _calculate_segment_lengths through the call arguments, t ≡ a + b; the
-    unsplit elements are the disjoint slices [:i] and [i+1:] around element i.
+R1  antimeridian split (T-ALG + reaching definitions on the CFG + def-use across
+    the calls).  For each of the two split functions and on EVERY path to a
+    return, the integrated part built per variable v is exactly
+    [elements before k] ++ [v[k]·share]  (first)  /  [v[k]·share] ++ [elements
+    after k]  (second): the share term is passed exactly once (no return
+    bypasses it), is a multiple of the crossing element only, and the kept
+    slices tile the rest without overlap.  The part is found through
+    comprehension / map / helper or loop-append forms and any of concatenate /
+    hstack / append / r_ / list spellings.  Substituting the call arguments and
+    the lengths as returned by _calculate_segment_lengths (A measured from
+    element k to the antimeridian, B from there to k+1), share(first) ≡ A/(A+B),
+    share(second) ≡ B/(A+B), and over every pair of paths the two sum to 1;
+    lengths and both parts use one crossing index.
 R2  degenerate-segment share (T-GUARD): the guarded division producing the
     sub-segment shares is guarded on its *denominator* and defaults to one
     where the denominator is zero (a zero-length segment has exactly one
@@ -28,8 +36,7 @@ import copy
 import re
 
 from ..algebra import AlgebraError, normal_form, poly_equal, Rat
-from ..astutil import (MUTATING_METHODS, ancestors, assigned_names, call_name, calls_in, conjuncts, eval_pred, guards_of,
-                       is_within,
+from ..astutil import (MUTATING_METHODS, ancestors, assigned_names, call_name, calls_in, conjuncts, guards_of, is_within,
                        kwarg, names_in, norm, single_def_value, stmt_of, stores_to, walk_no_nested)
 from ..cfg import CFG
 from ..resolve import resolve_call
@@ -114,8 +121,9 @@ def _subst(e, mapping):
 
 
 class SeqView:
-    def __init__(self, fi):
+    def __init__(self, fi, prog=None):
         self.fi = fi
+        self.prog = prog
         self.fn = fi.node
         self.params = set(fi.params)
         self.cfg = CFG(fi.node)
@@ -527,7 +535,7 @@ class SeqView:
                 raise Undecided(f'loop over `{src}` leaves or nests (`{norm(x)[:40]}`)')
         head = next(i for i in self.cfg.nodes_of(lp) if self.cfg.nodes[i].kind == 'iter')
         if not all(head in self.dom.get(n, ()) for n in self._node_of(at)) or \
-                not all(any(i in self.dom.get(head, ()) for i in self.cfg.nodes_of(plain[0])) for _ in (0,)):
+                not any(i in self.dom.get(head, ()) for i in self.cfg.nodes_of(plain[0])):
             raise Undecided(f'the loop filling `{name}` is not passed on every path to line {at.lineno}')
 
         def added(st):
@@ -658,8 +666,20 @@ def ret_elts(view, r):
                 v, at = ds[0].value, ds[0]
                 continue
         break
+    if isinstance(v, ast.Call) and view.prog is not None:
+        # a record (NamedTuple / dataclass) built from the parts: components in field order
+        from ..resolve import resolve_class_call
+        ci = resolve_class_call(view.prog, view.fi, v)
+        if ci is not None and not any(isinstance(a, ast.Starred) for a in v.args) and all(k.arg for k in v.keywords):
+            fields = list(ci.annotated_fields())
+            got = dict(zip(fields, v.args))
+            got.update({k.arg: k.value for k in v.keywords})
+            if len(v.args) <= len(fields) and set(got) == set(fields):
+                return [(got[f], at) for f in fields]
     if not isinstance(v, ast.Tuple):
         raise Undecided(f'return at line {r.lineno} does not return a tuple of parts')
+    if any(isinstance(x, ast.Starred) for x in v.elts):
+        raise Undecided(f'return at line {r.lineno} returns a starred tuple')
     return [(x, at) for x in v.elts]
 
 
@@ -694,9 +714,13 @@ SPLITS = (('first', 'Gridder._dateline_split_first_segment'), ('second', 'Gridde
 IV = 'integrated_variables'
 
 
+def _same_fn(a, b):
+    return a is not None and (a == b or a.node is b.node)
+
+
 def split_call(ctx, rule, gc, fn):
     prog = ctx.prog
-    call = next((c for c in calls_in(gc.node) if resolve_call(prog, gc, c) == fn), None)
+    call = next((c for c in calls_in(gc.node) if _same_fn(resolve_call(prog, gc, c), fn)), None)
     if call is None:
         ctx.undecided(rule, gc, fn.qualname, 'split call not found')
     if any(isinstance(a, ast.Starred) for a in call.args) or any(k.arg is None for k in call.keywords):
@@ -718,7 +742,7 @@ def _rule_split_sum(ctx, m):
     prog = ctx.prog
     cs = m.func('Gridder._calculate_segment_lengths')
     gc = m.func('Gridder._grid_trajectory_with_dateline_crossing')
-    csv, gcv = SeqView(cs), SeqView(gc)
+    csv, gcv = SeqView(cs, prog), SeqView(gc, prog)
     # ---- the two lengths: from element k to the antimeridian (A) and from there to element k+1 (B) -----------------
     rets = csv.returns()
     if len(rets) != 1:
@@ -756,7 +780,7 @@ def _rule_split_sum(ctx, m):
     # ---- caller: the returned lengths under the names they are unpacked to ------------------------------------
     unpack = None
     for t_, st, how in stores_to(gc.node):
-        if isinstance(st, ast.Assign) and isinstance(st.value, ast.Call) and resolve_call(prog, gc, st.value) == cs:
+        if isinstance(st, ast.Assign) and isinstance(st.value, ast.Call) and _same_fn(resolve_call(prog, gc, st.value), cs):
             unpack = st
     if unpack is None or not isinstance(unpack.targets[0], ast.Tuple) or len(unpack.targets[0].elts) != len(lens) \
             or not all(isinstance(x, ast.Name) for x in unpack.targets[0].elts):
@@ -771,7 +795,7 @@ def _rule_split_sum(ctx, m):
     nshare = 0
     for part, qn in SPLITS:
         fn = m.func(qn)
-        view = SeqView(fn)
+        view = SeqView(fn, prog)
         call, binding = split_call(ctx, 'C04-R1', gc, fn)
         if IV not in binding:
             ctx.undecided('C04-R1', fn, IV, 'the split function has no such parameter')
@@ -791,8 +815,7 @@ def _rule_split_sum(ctx, m):
         pos = {j for row in evaluated for j, alts in enumerate(row) if isinstance(alts, list)
                and any(a[0] == 'pervar' and a[1] == IV for a in alts)}
         if len(pos) != 1:
-            why = '; '.join(sorted({str(a) for row in evaluated for a in row if isinstance(a, Undecided) and IV in str(a) + ' '.join(
-                norm(d) for d in ())}))
+            why = '; '.join(sorted({str(a) for row in evaluated for a in row if isinstance(a, Undecided) and IV in str(a)}))
             ctx.undecided('C04-R1', fn, 'returned parts', f'{len(pos)} returned components are recognised as built from {IV}'
                           + (f' ({why[:300]})' if why else ''))
         pos = pos.pop()
@@ -853,7 +876,8 @@ def _check_share(ctx, fn, view, part, tag, r, var, parts, env, want, shares, kbi
     ok = ph in marks and is_multiple_of(f, ph, var)
     ctx.ob('C04-R1', fn, f'{tag}: inserted element is {var}[{k}] × share', ok,
            f'`{shown[:70]}`' if ok else
-           f'the inserted element `{shown[:70]}` is not the crossing element {var}[{k}] times a share', line=r.lineno)
+           f'the inserted element `{shown[:70]}` is not the crossing element {var}[{k}] times a share',
+           line=getattr(elems[0][1], 'lineno', r.lineno))
     # (b) the kept elements are exactly those on this side of the crossing element
     rest = [p for p in parts if p[0] != 'elem']
     zero = (None, (None, 0))
@@ -883,7 +907,7 @@ def _check_share(ctx, fn, view, part, tag, r, var, parts, env, want, shares, kbi
     ctx.ob('C04-R1', fn, f'{tag}: share = {txt[:80]}', oks,
            f'share of the {part} part = its own length over the sum of both lengths' if oks else
            (f'the {part} part of the crossing segment is scaled by `{txt[:80]}`, which is not the {part} length over the '
-            'sum of both lengths: the two shares no longer add up to the segment value'), line=r.lineno)
+            'sum of both lengths: the two shares no longer add up to the segment value'), line=getattr(elems[0][1], 'lineno', r.lineno))
     shares.append((f'{part}#{tag[-1]} {txt[:60]}', share))
     return 1
 
